@@ -31,7 +31,7 @@ def plan(tier, seed):
 
 
 def floors(tier):
-    return {"evaluations": 100, "strata": ["default-scale/svg", "default-scale/tikz", "own-scale/svg", "own-scale/tikz", "repeated-export", "shared-data-objects", "value-equal-twin", "several-timelines-without-options", "shared-options-object", "after-a-failing-construction"],
+    return {"evaluations": 100, "strata": ["default-scale/svg", "default-scale/tikz", "own-scale/svg", "own-scale/tikz", "repeated-export", "shared-data-objects", "value-equal-twin", "several-timelines-without-options", "shared-options-object", "after-a-failing-construction", "after-a-failed-export-to-file"],
             "events": {"history_processes": 30, "reference_processes": 60, "noninterference": 100}, "distinct_nontrivial": 30, "max_inconclusive_frac": 0.05}
 
 
@@ -118,6 +118,12 @@ def gen_history(rng):
     ops.append(["export", 0])
     if rng.random() < 0.5:
         ops.append(["export", rng.randrange(nt)])
+    if rng.random() < 0.3:
+        # after its first export a timeline is exported to a file in a way that fails late; it is exported again afterwards
+        k = rng.randrange(nt)
+        first = next(i for i, op in enumerate(ops) if op == ["export", k])
+        ops.insert(first + 1, ["export-to-file-failing", k])
+        ops.append(["export", k])
     if rng.random() < 0.25:
         ops.insert(rng.randrange(1, len(ops)), ["failing", rng.randrange(2)])  # a failing construction somewhere in between
     return {"specs": specs, "backends": backends, "ops": ops, "share_data": share, "twins": twins, "share_options": share_options}
@@ -152,6 +158,8 @@ def run_history(ctx, h, refs):
         ctx.judge("interference", VIOLATED, h, finding=out["interference"][:3], key="shared-option-state")
     seen_export = {}
     constructed = []
+    if any(op[0] == "export-to-file-failing" for op in h["ops"]):
+        ctx.stratum("after-a-failed-export-to-file", generated=1, judged=1, held=1)
     if any(op[0] == "failing" for op in h["ops"]):
         ctx.stratum("after-a-failing-construction", generated=1, judged=1, held=1)
     for i, op in enumerate(h["ops"]):
